@@ -28,10 +28,10 @@ package slug
 
 //@ func (*Packer).Unpack -> (err)
 //@   opt propagate-errors
-//@   tolerates tar.Reader.Next#1: _err == io.EOF
+//@   tolerates tar.Reader.Next: _err == io.EOF
 //@   tolerates os.Create#1: isPermission(_err)
-//@   tolerates os.Chmod#1: true
-//@   tolerates os.File.Close#1: true
+//@   tolerates os.Chmod: true
+//@   tolerates os.File.Close: true
 //@   sweep
 //@   replay validSymlink: root=dst, path=header.Name, target=header.Linkname, nallow=len(p.allowSymlinkTargets)
 //@   replay unpackDirs@C15:
@@ -51,11 +51,11 @@ package slug
 //@   invariant loop1 C15.unpack.entry-handled: (($kind == tar.TypeReg || $kind == tar.TypeRegA) ==> $copied && $restored) && ($kind == tar.TypeSymlink ==> $linked && $restored)
 //@       && len(directoriesExtracted) == $ndirs
 //@   at-call append C15,C02.unpack.dir-created: a1.Typeflag == tar.TypeDir && $lastMkdir == a1.Path
-//@   at-call unpackinfo.UnpackInfo.RestoreInfo#1 C15.unpack.dirs-restored-last: a0.Typeflag != tar.TypeDir
-//@   at-call unpackinfo.UnpackInfo.RestoreInfo#2 C15.unpack.dirs-restored-last2: a0.Typeflag != tar.TypeDir
+// (clauses name a call site by ordinal only where no state distinguishes the sites: reordering branches must not matter)
+//@   at-call unpackinfo.UnpackInfo.RestoreInfo C15.unpack.dirs-restored-last: a0.Typeflag == tar.TypeDir ==> $eof
 //@   at-call os.Create#2 C15.unpack.overwrite-retry: a0 == info.Path && $lastChmod == info.Path
 //@   at-call os.Symlink C15,C02.unpack.link-target: a0 == header.Linkname && a1 == info.Path
-//@   at-call os.Create#1 C15,C02.unpack.file-path: a0 == info.Path
+//@   at-call os.Create C15,C02.unpack.file-path: a0 == info.Path
 //@   invariant loop2 C12.unpack.rejected.inv2: !$rejected
 // the last path element is examined before a file or directory is created at it, and a link found there is removed
 // first: os.Create, os.MkdirAll, os.Chmod and os.Chtimes all follow a link in the last element (the parents are
@@ -63,8 +63,8 @@ package slug
 //@   ghost $lstatPath String = ""
 //@   ghost $lstatIsLink Bool = false
 //@   ghost $lastRemove String = ""
-//@   at-call os.Create#1 C01,C15.unpack.file-not-through-link: $lstatPath == info.Path && ($lstatIsLink ==> $lastRemove == info.Path)
-//@   at-call os.MkdirAll#2 C01,C15.unpack.dir-not-through-link: a0 == info.Path && $lstatPath == info.Path && ($lstatIsLink ==> $lastRemove == info.Path)
+//@   at-call os.Create C01,C15.unpack.file-not-through-link: $lstatPath == info.Path && ($lstatIsLink ==> $lastRemove == info.Path)
+//@   at-call os.MkdirAll C01,C15.unpack.dir-not-through-link: a0 == info.Path && a0 != Dir(info.Path) ==> $lstatPath == info.Path && ($lstatIsLink ==> $lastRemove == info.Path)
 // directories are only made for entries that materialise (file, directory, link), not for pax header entries
 //@   at-call os.MkdirAll C15.unpack.dirs-only-for-materialised-entries: info.Typeflag == tar.TypeDir || info.Typeflag == tar.TypeSymlink || info.Typeflag == tar.TypeReg || info.Typeflag == tar.TypeRegA
 // nothing but a link is ever removed: a directory that was recorded for the deferred restore of its mode and times is
@@ -74,12 +74,13 @@ package slug
 //@   ghost $nextDir Int = 0
 //@   invariant loop1 C15.unpack.dir-order.inv1: $nextDir == 0
 //@   invariant loop2 C15.unpack.dir-order.inv2: $nextDir == rangeindex + 1 && $nextDir <= len(directoriesExtracted)
-//@   at-call unpackinfo.UnpackInfo.RestoreInfo#3 C15.unpack.dirs-restored-in-archive-order: 0 <= $nextDir && $nextDir < len(directoriesExtracted) && a0 == directoriesExtracted[$nextDir]
-//@   set-at-call unpackinfo.UnpackInfo.RestoreInfo#3 upd: $nextDir = $nextDir + 1
+//@   at-call unpackinfo.UnpackInfo.RestoreInfo C15.unpack.dirs-restored-in-archive-order: a0.Typeflag == tar.TypeDir ==> 0 <= $nextDir && $nextDir < len(directoriesExtracted) && a0 == directoriesExtracted[$nextDir]
+//@   set-at-call unpackinfo.UnpackInfo.RestoreInfo upd: $nextDir = ite(a0.Typeflag == tar.TypeDir, $nextDir + 1, $nextDir)
 //@   ensures C15.unpack.all-dirs-restored: err == nil ==> $nextDir == len(directoriesExtracted)
 //@   ensures C12.unpack.illegal-slug: $rejected && !AbsErr(dst) ==> dyntype(err, "*slug.IllegalSlugError")
 //@   frame C01.frame: segUnder(Clean(_p), Abs(dst)) || Clean(_p) == Dir(Abs(dst))
 //@   slice-invariant directoriesExtracted C01.dirs: segUnder(Clean(_e.Path), Abs(dst))
+//@   slice-invariant directoriesExtracted C15.queued-are-directories: _e.Typeflag == tar.TypeDir
 //@   at-call os.Symlink C04.guarded: len(p.allowSymlinkTargets) == 0 ==>
 //@       segUnder(ite(isAbs(a0), Clean(a0), Join(Dir(Abs(a1)), a0)), Abs(dst))
 //@   invariant loop1 C12.eof.inv1: !$eof
@@ -139,7 +140,7 @@ package slug
 // the switch default "unexpected file mode": checkFileMode has already returned for every mode that is
 // not regular, directory or symlink, so the code itself never reaches it (declared for the per-return vacuity guard)
 //@   opt dead-return=unexpected file mode
-//@   tolerates go-slug.Packer.validSymlink#1: p.dereference
+//@   tolerates go-slug.Packer.validSymlink: p.dereference
 //@   sweep
 //@   ghost $tarN Int
 //@   ghost $tarBody Int
